@@ -114,6 +114,12 @@ func genClients(ts *sim.Tapes, cfg work.Config, prop, tier string) (prelude *wor
 		if t.Chance(1, 3) {
 			clients = append(clients, []work.Step{{Kind: "pause", Reader: 5 + t.Intn(60)}, {Kind: "close"}})
 		}
+		if t.Chance(1, 3) {
+			// a task that forbids the file to grow for a while (DB.MaxSize = current size): commits that need new
+			// pages then fail with the size-limit error, the others go through - and nobody may be left blocked
+			clients = append(clients, []work.Step{{Kind: "pause", Reader: 3 + t.Intn(30)}, {Kind: "limit", Reader: 1},
+				{Kind: "pause", Reader: 10 + t.Intn(60)}, {Kind: "limit", Reader: 0}})
+		}
 	}
 	return prelude, clients
 }
@@ -184,6 +190,7 @@ type mtWorld struct {
 	newest      int
 	// C14
 	pathReplaced bool
+	limitSeen bool // a size limit was in force at some time: commits may fail with ErrMaxSizeReached
 	// C08 concurrent arm: I/O faults while tasks run
 	disk        *sim.Disk
 	bodySerial  int          // serial number of the writer body that holds the writer lock
@@ -539,6 +546,16 @@ func (ss schedsim) client(m *mtWorld, ci int, steps []work.Step, t *sim.Task) {
 			for i := 0; i < st.Reader; i++ {
 				t.Pause("client.pause")
 			}
+		case "limit":
+			if st.Reader == 1 {
+				if fi, err := os.Stat(m.db.Path()); err == nil {
+					m.db.MaxSize = int(fi.Size())
+					m.limitSeen = true
+					m.probes["size-limit-switched-on"]++
+				}
+			} else {
+				m.db.MaxSize = 0
+			}
 		case "stats":
 			_ = m.db.Stats()
 			m.probes["stats-calls"]++
@@ -661,6 +678,8 @@ func (ss schedsim) writer(m *mtWorld, e *work.Exec, txn *work.Txn, t *sim.Task) 
 				m.fail("C08", "swallowed-error", "Update returned nil although %s failed inside its commit", why)
 			}
 			m.probes["commit-failed-by-injected-fault"]++
+		} else if m.limitSeen && errors.Is(err, berrors.ErrMaxSizeReached) {
+			m.probes["commit-refused-by-size-limit"]++
 		} else if err != nil {
 			m.fail("C03", "unexpected-error", "Update returned %v", err)
 		} else {
@@ -687,6 +706,11 @@ func (ss schedsim) writer(m *mtWorld, e *work.Exec, txn *work.Txn, t *sim.Task) 
 				m.probes["commit-failed-by-injected-fault"]++
 				if serial%2 == 0 {
 					_ = tx.Rollback() // the `defer tx.Rollback()` idiom after a failed Commit
+				}
+			} else if m.limitSeen && errors.Is(err, berrors.ErrMaxSizeReached) {
+				m.probes["commit-refused-by-size-limit"]++
+				if serial%2 == 0 {
+					_ = tx.Rollback() // the `defer tx.Rollback()` idiom; the other half relies on Commit having cleaned up
 				}
 			} else if err != nil {
 				m.fail("C03", "unexpected-error", "Commit returned %v", err)
@@ -1090,6 +1114,6 @@ func init() {
 		Rule:   "one evaluation = one seeded multi-task run with 1-2 writer tasks and 1-2 backup tasks: a backup begins a read transaction at a tape-chosen moment (optionally ages it while writers commit), copies it with WriteTo into a writer that yields to the scheduler on every Write call (or CopyFile, or WriteTo with WriteFlag) while writers keep committing, reusing pages, growing and remapping; a copy whose destination fails part-way (a writer that returns an error after a tape-chosen number of bytes; CopyFile to /dev/full) must return an error; otherwise the copy must have exactly Tx.Size() bytes, decode cleanly (all pages accounted for) to the model version of the backup's txid, open with the real code, dump equal and pass Tx.Check. distinct_nontrivial = distinct schedule fingerprints among runs with a commit and a pre-emption",
 		Assume: []string{"interleavings below hook granularity are not explored", "which meta slot wins in the copy is not asserted"}})
 	register(&Info{Prop: "C03", Engine: altEngine{[]Engine{ss, ss, ss, batchsim{}}}, Level: "exploration", QuickS: 60, ThoroughS: 900, RealStub: real,
-		Rule:   "every fourth run index is the Batch arm (batchsim engine under the same scheduler and the fake clock): 1-8 tasks issue DB.Batch calls, plain Update callers compete, and in two thirds of these runs a task calls DB.Close while Batch calls are queued behind a MaxBatchDelay timer, running or still arriving; every call must return once the clock may advance (a call that never returns = lost wake-up), a nil return means its effect is committed exactly once (read after reopening), an error is the call's own or, after Close was invoked, ErrDatabaseNotOpen, and then nothing of the call is committed. The other run indices: one evaluation = one seeded multi-task run: 1-4 writer tasks (Update / Begin+Commit / rollback / failing / panicking bodies), readers, a Stats caller and sometimes a late Close; oracles: never two writer bodies at once, committed ids consecutive, every read of a writer equals the model built from its predecessors in id order plus its own writes, failed bodies leave no trace, porcupine linearizability of the (txid) history stamped with event sequence numbers, deadlock = no enabled task and no timer, Close returns only after open transactions finished. distinct_nontrivial as for C02",
+		Rule:   "every fourth run index is the Batch arm (batchsim engine under the same scheduler and the fake clock): 1-8 tasks issue DB.Batch calls, plain Update callers compete, and in two thirds of these runs a task calls DB.Close while Batch calls are queued behind a MaxBatchDelay timer, running or still arriving; every call must return once the clock may advance (a call that never returns = lost wake-up), a nil return means its effect is committed exactly once (read after reopening), an error is the call's own or, after Close was invoked, ErrDatabaseNotOpen, and then nothing of the call is committed. In a third of the other runs a task forbids file growth for a while (DB.MaxSize = current size): commits that need new pages fail with the size-limit error - no version, no blocked task afterwards. The other run indices: one evaluation = one seeded multi-task run: 1-4 writer tasks (Update / Begin+Commit / rollback / failing / panicking bodies), readers, a Stats caller and sometimes a late Close; oracles: never two writer bodies at once, committed ids consecutive, every read of a writer equals the model built from its predecessors in id order plus its own writes, failed bodies leave no trace, porcupine linearizability of the (txid) history stamped with event sequence numbers, deadlock = no enabled task and no timer, Close returns only after open transactions finished. distinct_nontrivial as for C02",
 		Assume: []string{"interleavings below hook granularity are not explored", "race freedom is not decided by this arm (token scheduling orders everything)"}})
 }
